@@ -228,6 +228,11 @@ func (rw *rewriter) run() bool {
 			repl, def = modPath+"/zzverif/vatomic", "atomic"
 		case "time":
 			repl, def = modPath+"/zzverif/vtime", "time"
+		case "crypto/tls":
+			// only the h2 package: its tls.Dial is the upstream dial of Config.Proxy (no other seam exists)
+			if rw.pkg.PkgPath == modPath+"/h2" {
+				repl, def = modPath+"/zzverif/vtls", "tls"
+			}
 		}
 		if repl == "" {
 			continue
